@@ -3,7 +3,7 @@
    followed by those in its transit buffer, followed by those in its queue - for every op list.
    A thread context is destroyed only when its queue and buffer are empty. *)
 From Coq Require Import List NArith Arith Bool Lia.
-From Quill Require Import Queue.BQDefs Queue.BQProofs Queue.BQSeqProofs Backend.BEDefs.
+From Quill Require Import Queue.BQDefs Queue.BQProofs Queue.BQSeqProofs BT.BTModel Backend.BEDefs.
 Import ListNotations.
 Local Open Scope N_scope.
 
@@ -116,7 +116,7 @@ Definition PInv (s : st) : Prop := forall t e, pend (th s t) = Some e -> 0 < esz
 
 Lemma fstep_inv s o : pos_op o -> Inv s /\ PInv s -> Inv (fstep K s o) /\ PInv (fstep K s o).
 Proof.
-  intros Hpo [I P]. destruct o as [t e|t|t|t|t|l v|k v|d]; cbn [fstep].
+  intros Hpo [I P]. destruct o as [t e|t|t|t|t|l v|k v|k m|d]; cbn [fstep].
   - (* FClock *)
     destruct (pend (th s t)) eqn:Ep; [split; assumption|].
     destruct (tvalid (th s t) && passes_logger s e); [|split; assumption].
@@ -133,13 +133,10 @@ Proof.
     pose proof (P _ _ Ep) as Hpos. rewrite <- Hsz in Hpos.
     destruct (prepare_write ideal C (q (th s t)) (esz e)) as [q1 [off|]] eqn:E.
     + (* granted *)
-      split.
-      * intro u. cbn [issued delivered th set_th]. upd_cases u t.
-        -- pose proof (pw_grant_inv _ _ _ e q1 off (I t) Hpos E) as G.
-           destruct (ekind e); [exact G|apply TInv_wflush; exact G|exact G|exact G].
-        -- apply I.
-      * intros u e'. cbn [th set_th]. upd_cases u t; [|apply P].
-        destruct (ekind e); cbn; discriminate.
+      pose proof (pw_grant_inv _ _ _ e q1 off (I t) Hpos E) as G.
+      destruct (ekind e) eqn:Ek; cbn [set_lg th issued delivered set_th]; (split;
+        [intro u; cbn [issued delivered th set_th set_lg]; upd_cases u t; [try (apply TInv_wflush); exact G|apply I]
+        |intros u e'; cbn [th set_th set_lg]; upd_cases u t; [cbn; discriminate|apply P]]).
     + (* denied *)
       pose proof (pw_deny_inv _ _ _ _ _ _ (I t) E) as D.
       assert (Fin : forall (s' : st) x2, th s' = th s -> issued s' = issued s -> delivered s' = delivered s ->
@@ -170,6 +167,7 @@ Proof.
       * intros u e'. cbn. upd_cases u t; [cbn; apply P|apply P].
   - split; assumption.
   - split; assumption.
+  - destruct (existsb (N.eqb m) (sfilt (sk s k)) || (m =? 0)); split; assumption.
   - split; assumption.
 Qed.
 
@@ -279,13 +277,14 @@ Lemma same_core_good s s' : th s' = th s -> issued s' = issued s -> delivered s'
 Proof. intros E1 E2 E3 [I P]. split; [intro t; rewrite E1, E2, E3; apply I|intros t e; rewrite E1; apply P]. Qed.
 
 Lemma dispatch_core s e ks : let s' := fst (dispatch s e ks) in
-  th s' = th s /\ issued s' = issued s /\ delivered s' = delivered s /\ cache s' = cache s /\ plog s' = plog s.
+  th s' = th s /\ issued s' = issued s /\ delivered s' = delivered s /\ cache s' = cache s /\ plog s' = plog s /\
+  registered s' = registered s /\ gh s' = gh s /\ invalid_cnt s' = invalid_cnt s /\ flags s' = flags s.
 Proof.
-  revert s. induction ks as [|k r IH]; intro s; cbn [dispatch]; [auto|].
-  destruct (slevel (sk s k) <=? elvl e); [|apply IH].
-  destruct (memb (swrites (sk s k)) (sthrow (sk s k))); cbn [fst]; [cbn; auto|].
-  match goal with |- context [dispatch ?s1 e r] => destruct (IH s1) as (A & B & Cc & D & F) end.
-  cbn in *. auto.
+  revert s. induction ks as [|k r IH]; intro s; cbn [dispatch]; [repeat split|].
+  destruct (sink_accepts (sk s k) e); [|apply IH].
+  destruct (memb (swrites (sk s k)) (sthrow (sk s k))); cbn [fst]; [cbn; repeat split|].
+  match goal with |- context [dispatch ?s1 e r] => pose proof (IH s1) as H end.
+  cbn in H. cbn. exact H.
 Qed.
 
 Lemma report_failures_good s l : Good s -> Good (report_failures K s l).
@@ -341,6 +340,53 @@ Qed.
 Lemma cleanup_ctx_good s : Good s -> Good (cleanup_ctx K s).
 Proof. intro G. unfold cleanup_ctx. destruct (invalid_cnt s =? 0); [exact G|]. now apply cleanup_loop_good. Qed.
 
+Lemma replay_events_core ks l : forall s, let s' := fst (replay_events K s ks l) in
+  th s' = th s /\ issued s' = issued s /\ delivered s' = delivered s /\ cache s' = cache s /\ plog s' = plog s /\
+  registered s' = registered s /\ gh s' = gh s /\ invalid_cnt s' = invalid_cnt s /\ flags s' = flags s.
+Proof.
+  induction l as [|[e|] r IH]; intro s; cbn [replay_events]; [repeat split| |apply IH].
+  pose proof (dispatch_core s e ks) as H.
+  destruct (dispatch s e ks) as [s1 threw]. cbn [fst] in H.
+  destruct H as (A & B & Cc & D & F & G & H1 & H2 & H3).
+  destruct threw; [destruct (c_bt_catch K)|].
+  - pose proof (IH (add_obs s1 [O_NOTE; 5; 0])) as H'. cbn in H'. destruct H' as (A' & B' & C' & D' & F' & G' & I1 & I2 & I3).
+    cbn. repeat split; congruence.
+  - cbn. repeat split; assumption.
+  - pose proof (IH s1) as H'. cbn in H'. destruct H' as (A' & B' & C' & D' & F' & G' & I1 & I2 & I3).
+    repeat split; congruence.
+Qed.
+
+Lemma replay_bt_core s l : let s' := fst (replay_bt K s l) in
+  th s' = th s /\ issued s' = issued s /\ delivered s' = delivered s /\ cache s' = cache s /\ plog s' = plog s /\
+  registered s' = registered s /\ gh s' = gh s /\ invalid_cnt s' = invalid_cnt s /\ flags s' = flags s.
+Proof.
+  unfold replay_bt. destruct (lbt (lg s l)) as [b|]; [|cbn; repeat split].
+  destruct (process (c_bt K) b) as [b' outs].
+  pose proof (replay_events_core (lsinks (lg s l)) outs s) as H.
+  destruct (replay_events K s (lsinks (lg s l)) outs) as [s1 threw]. cbn [fst] in *.
+  destruct threw; cbn; exact H.
+Qed.
+
+Lemma process_event_core s e : let s' := process_event K s e in
+  th s' = th s /\ issued s' = issued s /\ delivered s' = delivered s /\ cache s' = cache s /\ plog s' = plog s /\
+  registered s' = registered s /\ gh s' = gh s /\ invalid_cnt s' = invalid_cnt s /\ flags s' = flags s.
+Proof.
+  unfold process_event. destruct (ekind e).
+  - destruct (elvl e =? LV_BACKTRACE).
+    + destruct (lbt (lg s (elg e))); cbn; repeat split.
+    + pose proof (dispatch_core s e (lsinks (lg s (elg e)))) as H.
+      destruct (dispatch s e (lsinks (lg s (elg e)))) as [s' threw]. cbn [fst] in H.
+      destruct threw; [cbn; exact H|].
+      destruct (lbtlvl (lg s' (elg e)) <=? elvl e); [|exact H].
+      pose proof (replay_bt_core s' (elg e)) as H2. destruct (replay_bt K s' (elg e)) as [s2 t2]. cbn [fst] in H2.
+      destruct H as (A & B & Cc & D & F & G & H1 & H3 & H4). destruct H2 as (A' & B' & C' & D' & F' & G' & I1 & I2 & I3).
+      destruct t2; cbn; repeat split; congruence.
+  - cbn. repeat split.
+  - cbn. repeat split.
+  - pose proof (replay_bt_core s (elg e)) as H2. destruct (replay_bt K s (elg e)) as [s2 t2]. cbn [fst] in H2.
+    destruct t2; cbn; exact H2.
+Qed.
+
 Lemma min_front_some s l : forall best u e, min_front s l best = Some (u, e) ->
   (forall v b, best = Some (v, b) -> exists r, tbuf (th s v) = b :: r) ->
   exists r, tbuf (th s u) = e :: r.
@@ -358,12 +404,9 @@ Proof.
   intros G. unfold process_min.
   destruct (min_front s (cache s) None) as [[u e]|] eqn:MF; [|exact G].
   destruct (min_front_some s _ _ _ _ MF ltac:(intros; discriminate)) as [r Hr].
-  set (s1 := match ekind e with KLog => _ | KFlush => _ | _ => s end).
+  set (s1 := process_event K s e).
   assert (C1 : th s1 = th s /\ issued s1 = issued s /\ delivered s1 = delivered s).
-  { unfold s1. destruct (ekind e); try (repeat split; reflexivity).
-    - pose proof (dispatch_core s e (lsinks (lg s (elg e)))) as (A & B & Cc & _).
-      destruct (dispatch s e (lsinks (lg s (elg e)))) as [s' threw]. cbn [fst] in *.
-      destruct threw; cbn; auto. }
+  { pose proof (process_event_core s e) as (A & B & Cc & _). unfold s1. auto. }
   destruct C1 as (A & B & Cc).
   assert (G3 : Good (pop_event s1 u e)).
   { destruct G as [I P]. unfold pop_event. rewrite A. split.
